@@ -318,6 +318,9 @@ def one_run(run):
     # audits
     audit_c06(animals, N, failures, stats, info)
     f7 = res["failures7"]
+    ks = [s["key"] for s in tr.statics]
+    if run.get("kdict") is not None and any(not ks[i] >= ks[i + 1] for i in range(len(ks) - 1)):
+        f7.append(dict(info, kind="order", what=f"herds are fed in the order {tr.names} although their priority keys are {ks}"))
     for m, mon in enumerate(tr.months):
         audit_c07_month(mon, tr.statics, f7, stats, dict(info, month=m))
         fu, gu = float(feed_used.kcals[m]), float(grass_used.kcals[m])
@@ -333,7 +336,59 @@ def one_run(run):
     return res
 
 
+class _Country:
+    def __init__(self, month):
+        self.month = month
+
+
+def direct_case(case):
+    """AnimalPopulation.calculate_change_in_population called directly on the herds of a real country with generated
+    states (herd size, last slaughter above / below the baseline, remaining hours, additive animals): the states the month
+    loop itself never reaches (a binding hours budget) are exercised here."""
+    import random
+    rng = random.Random(case["seed"])
+    try:
+        with Tracer() as tr, quiet():
+            animals, _, _ = ap.main(case["code"], mkfood([0.0, 0.0]), mkfood([0.0, 0.0]), case["scenario"], None, 0, case.get("kdict"))
+    except BaseException as e:  # noqa
+        return {"error": classify(e) + ": " + str(e)[:300]}
+    out = []
+    statics = tr.statics
+    for _ in range(case["n"]):
+        i = rng.randrange(len(animals))
+        a, st = animals[i], statics[i]
+        cap = sum(x.animal_slaughter_hours * x.baseline_slaughter for x in animals if x.animal_size == a.animal_size)
+        cur = st["initital_population"] * rng.choice([0.0, rng.uniform(0, 1.5), 1.0])
+        sl = st["baseline_slaughter"] * rng.choice([0.0, 1.0, rng.uniform(0, 3), rng.uniform(1, 10)])
+        remaining = rng.choice([0.0, cap, cap * rng.uniform(0, 1.2), sl * st["animal_slaughter_hours"] * rng.uniform(0.2, 1.0)])
+        additive = cur * rng.choice([0.0, rng.uniform(0, 0.1)])
+        ret = cur * st["retiring_fraction"] if st["milk"] else 0.0
+        month = rng.choice([0, 1, 7])
+        pf = rng.choice([0.0, 0.1, a.pregnant_animal_slaughter_fraction])
+        ptot = rng.choice([a.pregnant_animals_total[-1], cur * rng.uniform(0, 0.3)])
+        a.current_population = cur
+        a.slaughter.append(sl)
+        a.pregnant_animals_total.append(ptot)
+        a.pregnant_animal_slaughter_fraction = pf
+        if st["milk"]:
+            a.retiring_milk_animals.append(ret)
+        rec = {"static": st, "state": [cur, sl, ptot, 0.0, pf], "additive": additive, "ret": ret, "remaining": remaining,
+               "month": month, "code": case["code"], "scenario": case["scenario"]}
+        try:
+            with quiet():
+                left = ap.AnimalPopulation.calculate_change_in_population(a, _Country(month), additive, remaining)
+            rec["obs"] = [fl(a.slaughter[-1]), fl(a.current_population), fl(a.pregnant_animals_total[-1]),
+                          fl(a.pregnant_animals_birthing_this_month[-1]), fl(a.other_death_causes_other_than_starving[-1]),
+                          fl(a.slaughtered_pregnant_animals[-1]), fl(left)]
+        except BaseException as e:  # noqa
+            rec["err"] = classify(e) + ": " + str(e)[:200]
+        out.append(rec)
+    return {"cases": out}
+
+
 def run(payload):
+    if "direct" in payload:
+        return {"direct": [direct_case(c) for c in payload["direct"]]}
     runs = payload["runs"]
     nproc = int(payload.get("nproc", 14))
     if len(runs) > 1 and nproc > 1:
